@@ -318,7 +318,8 @@ def plan(ctx, sc, role, label):
                     ops += mut.der_tree_ops(raw, rng, full=not ctx.quick)
             if ctx.quick:
                 # sample operators but always keep the bombs
-                always = ("zbomb", "ext_u16=", "psk_", "sni:", "dertree_oid",
+                always = ("zbomb", "ext_u16=", "psk_", "sni:", "snilist:",
+                          "dertree_oid",
                           "cke_premaster_len",
                           "dertree_empty:bitstr",
                           "dertree_empty:octstr", "dertree_trunc1:bitstr",
